@@ -152,6 +152,25 @@ func mergeToWriter(segments []*SegmentBase, drops []*roaring.Bitmap,
 				return nil, 0, 0, nil, nil, 0, err
 			}
 		}
+	} else {
+		// no document survives: every document of every input is dropped
+		newDocNums = make([][]uint64, len(segments))
+		for segI, segment := range segments {
+			newDocNums[segI] = make([]uint64, segment.numDocs)
+			for docNum := range newDocNums[segI] {
+				newDocNums[segI][docNum] = docDropped
+			}
+		}
+
+		// nothing precedes the fields section, and readers take a field
+		// record at offset 0 as "no such field": keep the first record of a
+		// non-trivial fields section off offset 0
+		if len(fieldsInv) > 1 {
+			_, err = cr.Write([]byte{0})
+			if err != nil {
+				return nil, 0, 0, nil, nil, 0, err
+			}
+		}
 	}
 
 	// we can persist the fields section index now, this will point
